@@ -298,7 +298,8 @@ FASTOR_INLINE SIMDVector<int64_t,simd_abi::avx512> operator-(int64_t a, const SI
     return out;
 }
 FASTOR_INLINE SIMDVector<int64_t,simd_abi::avx512> operator-(const SIMDVector<int64_t,simd_abi::avx512> &b) {
-    return _mm512_castps_si512(_mm512_neg_ps(_mm512_castsi512_ps(b.value)));
+    // two's complement negation: flipping sign bits (as for floats) is not integer negation
+    return _mm512_sub_epi64(_mm512_setzero_si512(),b.value);
 }
 
 FASTOR_INLINE SIMDVector<int64_t,simd_abi::avx512> operator*(const SIMDVector<int64_t,simd_abi::avx512> &a, const SIMDVector<int64_t,simd_abi::avx512> &b) {
@@ -655,7 +656,8 @@ FASTOR_INLINE SIMDVector<int64_t,simd_abi::avx> operator-(int64_t a, const SIMDV
 }
 FASTOR_INLINE SIMDVector<int64_t,simd_abi::avx> operator-(const SIMDVector<int64_t,simd_abi::avx> &b) {
     SIMDVector<int64_t,simd_abi::avx> out;
-    out.value = _mm256_castpd_si256(_mm256_neg_pd(_mm256_castsi256_pd(b.value)));
+    // two's complement negation: flipping the sign bit (as for floats) is not integer negation
+    out.value = _mm256_sub_epi64x(_mm256_setzero_si256(),b.value);
     return out;
 }
 
@@ -970,7 +972,8 @@ FASTOR_INLINE SIMDVector<int64_t,simd_abi::sse> operator-(int64_t a, const SIMDV
 }
 FASTOR_INLINE SIMDVector<int64_t,simd_abi::sse> operator-(const SIMDVector<int64_t,simd_abi::sse> &b) {
     SIMDVector<int64_t,simd_abi::sse> out;
-    out.value = _mm_castpd_si128(_mm_neg_pd(_mm_castsi128_pd(b.value)));
+    // two's complement negation: flipping the sign bit (as for floats) is not integer negation
+    out.value = _mm_sub_epi64(_mm_setzero_si128(),b.value);
     return out;
 }
 
